@@ -9,7 +9,7 @@ res="applies=no"
 if git -C $wt apply $src/patch_$k.diff 2>/dev/null || git -C $wt apply -3 $src/patch_$k.diff 2>/dev/null; then
   res="applies=yes"
   (cd $wt && PYTHONPATH=$wt/src TQDM_DISABLE=1 timeout 900 /venv/bin/python $src/demo_$k.py > $out/${id}_$k.demo_with.log 2>&1); dw=$?
-  (cd $wt && PYTHONPATH=$wt/src timeout 3000 /venv/bin/python -m pytest -q -p no:cacheprovider --timeout=900 -x --deselect tests/test_sample_simple_cur.py > $out/${id}_$k.suite.log 2>&1); st=$?
+  (cd $wt && OMP_NUM_THREADS=2 OPENBLAS_NUM_THREADS=2 PYTHONPATH=$wt/src timeout 3000 /venv/bin/python -m pytest -q -p no:cacheprovider --timeout=900 -x --deselect tests/test_sample_simple_cur.py > $out/${id}_$k.suite.log 2>&1); st=$?
   suite=$(tail -1 $out/${id}_$k.suite.log)
   git -C $wt diff HEAD > $out/${id}_$k.patch_on_head.diff
   git -C $wt checkout -q -- . ; git -C $wt reset -q --hard
